@@ -35,6 +35,9 @@ def _block(stmts, env, cond, out, anchor):
                 raise Unavailable(f"{anchor}: assignment target {ast.unparse(st.targets[0])}")
             env[st.targets[0].id] = _subst(st.value, env)
             continue
+        if isinstance(st, ast.Assert):
+            out.append(("assert", ast.unparse(_subst(st.test, env)).replace(" ", "")))
+            continue
         if isinstance(st, ast.Return):
             if st.value is None:
                 raise Unavailable(f"{anchor}: bare return")
@@ -83,7 +86,7 @@ def inlined_returns(rel, name):
     if not _block(f.body, {}, [], out, name):
         raise Unavailable(f"{name}: a path does not return")
     sig = ",".join(params[:len(params) - len(defaults)] + [f"{p}={d}" for p, d in zip(params[len(params) - len(defaults):], defaults)])
-    return [(f"{name}.signature", sig)] + [(f"{name}.return[{c}]", e) for c, e in out]
+    return [(f"{name}.signature", sig)] + [(f"{name}.assert" if c == "assert" else f"{name}.return[{c}]", e) for c, e in out]
 
 
 MI = "causationentropy/core/information/mutual_information.py"
@@ -99,15 +102,44 @@ def estimator_facts():
     return facts
 
 
-def coq_estimator_facts(facts):
+def coq_facts(facts, module="Model.EstimatorSource", table="modelled_source"):
     def q(s):
         return '"' + s.replace('"', "'") + '"'
     return ("From Coq Require Import String List.\nImport ListNotations.\nOpen Scope string_scope.\n"
-            "From CE Require Import Model.EstimatorSource.\n"
+            f"From CE Require Import {module}.\n"
             "Definition src_facts : list (string * string) :=\n  [" + ";\n   ".join(f"({q(k)}, {q(v)})" for k, v in facts) + "].\n"
-            "Lemma src_estimators_are_modelled : src_facts = modelled_source.\nProof. reflexivity. Qed.\n")
+            f"Lemma src_is_modelled : src_facts = {table}.\nProof. reflexivity. Qed.\n")
+
+
+def coq_estimator_facts(facts):
+    return coq_facts(facts)
+
+
+STATS = "causationentropy/core/stats.py"
+
+
+def stats_facts():
+    return inlined_returns(STATS, "Compute_TPR_FPR") + inlined_returns(STATS, "auc")
+
+
+def coq_stats_facts(facts):
+    return coq_facts(facts, "Model.SourceTables", "stats_source")
+
+
+def poisson_joint_facts():
+    return inlined_returns(ENT, "poisson_joint_entropy")
+
+
+def coq_poisson_joint_facts(facts):
+    return coq_facts(facts, "Model.SourceTables", "poisson_joint_source")
+
+
+def render_table(name, facts):
+    def q(s):
+        return '"' + s.replace('"', "'") + '"'
+    return f"Definition {name} : list (string * string) :=\n  [" + ";\n   ".join(f"({q(k)},\n    {q(v)})" for k, v in facts) + "].\n"
 
 
 if __name__ == "__main__":
-    for k, v in estimator_facts():
+    for k, v in estimator_facts() + stats_facts() + poisson_joint_facts():
         print(k, "\n   ", v)
